@@ -61,3 +61,55 @@ Section MasterKey.
     destruct (Nat.leb_spec slip10_seed_min_len (length seed)); [lia|reflexivity].
   Qed.
 End MasterKey.
+
+(* ------------------------------------------------------------------ ChildKey / DerivePath / FromSeedAndPath
+   relative to the curve's operations: if the key constructors and the two CKD functions of the Bip32 class return a
+   value, an in-family error or run out of fuel, so does every derivation built on them (the Bip32 layer itself adds
+   ValueError for an index above 2^32 - 1 or an absolute path on a non-master object, and Bip32KeyError for a hardened
+   child of a public-only object). *)
+Lemma fof_bind {A B} (r : res A) (f : A -> res B) :
+  in_family_or_fuel r = true -> (forall a, r = Ok a -> in_family_or_fuel (f a) = true) -> in_family_or_fuel (bind r f) = true.
+Proof. destruct r as [a|e]; simpl; intros H K; [apply K; reflexivity|exact H]. Qed.
+
+Lemma fof_key_error {A} (r : res A) : in_family_or_fuel r = true -> in_family_or_fuel (value_error_to_key_error r) = true.
+Proof. destruct r as [a|e]; [auto|]. destruct e; simpl; auto. Qed.
+
+Section Derive.
+  Variable hmac512 : list N -> list N -> list N.
+  Variable hash160 : list N -> list N.
+  Variable D : deriv_ops.
+  Hypothesis priv_fof : forall b, in_family_or_fuel (d_priv_of_bytes D b) = true.
+  Hypothesis pub_fof : forall P, in_family_or_fuel (d_pub_check D P) = true.
+  Hypothesis ckd_priv_fof : forall fuel k P c i, in_family_or_fuel (d_ckd_priv D fuel k P c i) = true.
+  Hypothesis ckd_pub_fof : forall fuel P c i, in_family_or_fuel (d_ckd_pub D fuel P c i) = true.
+
+  Lemma new_priv_fof kb kd : in_family_or_fuel (new_priv D kb kd) = true.
+  Proof. unfold new_priv. apply fof_bind; [apply fof_key_error, priv_fof|reflexivity]. Qed.
+  Lemma new_pub_fof P kd : in_family_or_fuel (new_pub D P kd) = true.
+  Proof. unfold new_pub. apply fof_bind; [apply fof_key_error, pub_fof|reflexivity]. Qed.
+
+  Lemma child_key_fof fuel o i : in_family_or_fuel (child_key hash160 D fuel o i) = true.
+  Proof.
+    unfold child_key. destruct (N.leb i bip32_index_max); [|reflexivity].
+    destruct (o_priv o) as [k|].
+    - apply fof_bind; [apply ckd_priv_fof|]. intros kc _. apply new_priv_fof.
+    - destruct (negb (hardened i)); [|reflexivity].
+      apply fof_bind; [apply ckd_pub_fof|]. intros Pc _. apply new_pub_fof.
+  Qed.
+
+  Lemma derive_elems_fof fuel p : forall o, in_family_or_fuel (derive_elems hash160 D fuel o p) = true.
+  Proof.
+    induction p as [|i t IH]; intros o; cbn [derive_elems]; [reflexivity|].
+    apply fof_bind; [apply child_key_fof|]. intros o' _. apply IH.
+  Qed.
+
+  Lemma derive_path_fof fuel o is_abs p : in_family_or_fuel (derive_path hash160 D fuel o is_abs p) = true.
+  Proof. unfold derive_path. destruct (negb _); [apply derive_elems_fof|reflexivity]. Qed.
+
+  (* Bip32Base.FromSeedAndPath(seed bytes, Bip32Path) *)
+  Lemma from_seed_and_path_fof fuel seed is_abs p :
+    in_family_or_fuel (from_seed_and_path hmac512 hash160 D fuel seed is_abs p) = true.
+  Proof.
+    unfold from_seed_and_path. apply fof_bind; [apply from_seed_family_or_fuel|]. intros o _. apply derive_path_fof.
+  Qed.
+End Derive.
